@@ -301,6 +301,7 @@ pub fn run(tier: &str) -> i32 {
     progs.extend(io_host_space());
     progs.extend(multi_var_space());
     progs.extend(lookalike_space());
+    progs.extend(named_members_space());
     // member / element types written through `alias` declarations
     {
         let n0 = progs.len();
